@@ -117,5 +117,9 @@ def run(ctx):
     nse = efreelist.check_sentinel(ctx, F)
     ctx.floor("E-FREELIST.sentinel", "sentinel constants", nse, 7)
     efreelist.check_count_signs(ctx, F)
+    ctx.explain("E-FREELIST.binding: the thread-local free list / chunk cursor / count delta are touched only on the edge where "
+                "`current_store` equals this store's address (add_node, free_slot).")
+    nsb = efreelist.check_store_binding(ctx, F)
+    ctx.floor("E-FREELIST.binding", "current_store tests", nsb, 2)
     ctx.not_decided = ("exactness of counts over histories; the unsafe internals of the managers; "
                        "capacity restoration after gc")
